@@ -449,6 +449,9 @@ type C02Engine struct {
 	// pages), leaves it, switches to a language in which these label symbols resolve to
 	// these texts, and only then does the walk that is judged (with the translated texts)
 	LangLabels map[string]string `json:"lang_labels,omitempty"`
+	// First: the engine has a first function (run at every start of an engine, i.e. at
+	// every request of a persisted session)
+	First bool `json:"first,omitempty"`
 }
 
 func checkC02Engine(c C02Engine) (o Outcome) {
@@ -475,6 +478,10 @@ func checkC02Engine(c C02Engine) (o Outcome) {
 	} else if c.LangLabels != nil {
 		theApp = pc.toAppLang(c.LangLabels)
 		enter = "m"
+	}
+	if c.First {
+		theApp.Cfg.First = &app.First{Content: "first"}
+		o.class("with-first-function")
 	}
 	s := app.NewSession(app.NewShared(theApp), c.Mode, storage)
 	if c.Before == nil && c.LangLabels != nil {
@@ -586,7 +593,11 @@ func checkC02Engine(c C02Engine) (o Outcome) {
 			storage2, cleanup2 = newStorage(c.Mode.Backend)
 		}
 		defer cleanup2()
-		s2 := app.NewSession(app.NewShared(pc.toApp()), c.Mode, storage2)
+		app2 := pc.toApp()
+		if c.First {
+			app2.Cfg.First = &app.First{Content: "first"}
+		}
+		s2 := app.NewSession(app.NewShared(app2), c.Mode, storage2)
 		ok := true
 		for i := 0; i < w.pages && ok; i++ {
 			in := ""
@@ -635,6 +646,7 @@ func TestC02(t *testing.T) {
 		pc := genPageCase(t, pageGenOpts{sink: true})
 		pc.Err = ""
 		c := C02Engine{Page: pc, Mode: []app.Mode{{Kind: "long"}, {Kind: "persist", Backend: "mem"}}[uniformN(t, 2, "mode")]}
+		c.First = chancePct(t, 20, "first")
 		switch k := uniformN(t, 20, "variant"); {
 		case k < 7:
 			b := genPageCase(t, pageGenOpts{sink: true})
